@@ -30,6 +30,18 @@ def build_jobs(run: Run, quick: bool):
     for k, (label, d) in enumerate(docs.interplay_docs()):
         for le in ((k % 2 == 0,) if quick else (False, True)):
             add(d, label, {"interplay", label.split(":")[1].rsplit("_", 1)[0], "le" if le else "enum"}, cfg={"literal_enums": le}, meta="none")
+    # partly invalid documents: C08's bad pieces with dependants in every schema position; whatever remains must import
+    from .c08 import BAD_SCHEMAS, insert_bad
+    for i in range(60 if quick else 1200):
+        d, feats = docs.random_doc(("C01b", seed(), i), n_schemas=r.randint(3, 8), n_ops=r.randint(1, 4))
+        descs = []
+        for k in range(r.choice([1, 1, 2])):
+            out = insert_bad(d, r, r.choice(["depended_family", "depended_family", "depended_component", "existing_model_sharing_a_reference", "new_allof_parent", "new_union_member", "new_additional", "existing_op_extra_response"]), r.choice(list(BAD_SCHEMAS)), i * 10 + k)
+            if out:
+                d, _, _, desc = out
+                descs.append(desc["position"])
+        if descs:
+            add(d, f"broken:{i}", feats | {"broken:" + p_ for p_ in descs}, cfg={"literal_enums": i % 3 == 0}, meta="none")
     n = 260 if quick else 6000
     for i in range(n):
         hostile = [0.0, 0.35, 0.7][i % 3]
@@ -73,6 +85,9 @@ def judge(run: Run, j: dict, r: dict, inf: dict):
         n_problems += 1
         bad_files.add(rel.rsplit("/", 1)[-1])
         mech = classify_syntax(msg, text) if eff == "syntax_error" else "toml"
+        if mech == "duplicate_argument":
+            m_ = re.search(r"duplicate argument '(\w+)'", msg)
+            mech += ":" + (m_.group(1) if m_ and m_.group(1) in ("body", "client", "url") else "other")
         vd.violation(f"{eff}:{artefact_kind(rel)}:{mech}", f"{rel}: {msg}: {text}", witness)
     ev.count("files_compiled", sum(1 for k in (r.get("tree") or {}) if k.endswith(".py")))
     sb = r.get("sandbox") or {}
